@@ -17,11 +17,12 @@ RULE = ('(a) dispatcher level: for a concrete instance of each of the 8 listed s
         'must accept exactly what the model accepts and the text read through the returned handle must be the content. (b) end to end: '
         'the full product {path, .gz path, open text file, open binary file, StringIO, BytesIO, gzip text stream, gzip binary stream, '
         'junk...} x {load_minimal_ontology, load_ontology, SimpleHpoaDiseaseLoader.load, SimilarityContainer.from_csv} x several '
-        'contents (ASCII, non-ASCII, and one starting with a byte-order mark; the SAME path is overwritten with new content between '
+        'contents (ASCII, non-ASCII, one with U+2028/U+2029/U+0085/FF/FS/VT inside a field, and one starting with a byte-order mark; the SAME path is overwritten with new content between '
         'loads; directory names containing ".gz") x 3 layouts of the .gz file (one member, three concatenated members, bgzip-style '
         'blocks): the outcome - canonical dump of the loaded object, or the exception type - must equal the outcome for the plain '
         'path; junk -> ValueError. Writers: '
-        '{path, .gz path, text file stream, binary file stream, junk} x {SimilarityContainer.to_csv, AnnotationIcContainer.to_csv}: bytes '
+        '{path, .gz path, text file stream, binary file stream, junk} x {SimilarityContainer.to_csv, AnnotationIcContainer.to_csv}, every '
+        'target pre-filled with a longer stale table: bytes '
         'written (gunzipped, `created` stamp masked) must be identical. Every case probes one (function, kind, content) cell; distinct by '
         'that triple.')
 
@@ -199,10 +200,13 @@ def contents():
     the same of it for every source kind"""
     return {
         'json': [('ascii', obo_doc('Phenotypic abnormality', '2024-01-01', 3)), ('non-ascii', obo_doc('Anomalie phénotypique 表現型 😀', '2023-10-09', 5)),
-                 ('ascii-2', obo_doc('Another label', '2022-02-02', 2)), ('bom', '\ufeff' + obo_doc('With BOM é', '2021-01-01', 2))],
+                 ('ascii-2', obo_doc('Another label', '2022-02-02', 2)), ('bom', '\ufeff' + obo_doc('With BOM é', '2021-01-01', 2)),
+                 ('odd-separators', obo_doc('L\u2028M\x85N\x0cO\x1cP\u2029Q', '2020-05-05', 2))],
         'hpoa': [('ascii', hpoa_text('DISEASE', 5)), ('non-ascii', hpoa_text('MALADIE é ß 病', 7)), ('ascii-2', hpoa_text('OTHER', 3)),
-                 ('bom', '\ufeff' + hpoa_text('BOM é', 4))],
-        'csv': [('a', csv_text('first', 4)), ('b', csv_text('second é', 6)), ('c', csv_text('third', 2)), ('bom', '\ufeff' + csv_text('bom', 3))],
+                 ('bom', '\ufeff' + hpoa_text('BOM é', 4)),
+                 ('odd-separators', hpoa_text('A\u2028B\x85C\x0cD\x1cE\x0bF\u2029G', 4))],
+        'csv': [('a', csv_text('first', 4)), ('b', csv_text('second é', 6)), ('c', csv_text('third', 2)), ('bom', '\ufeff' + csv_text('bom', 3)),
+                ('odd-separators', csv_text('m\u2028n\x85o\x0cp\x1cq\x0br\u2029s', 3))],
     }
 
 
@@ -307,9 +311,11 @@ def writer_product(ctx, w):
                 ctx.case(['write', fname, kind, tag], True, 'writers x kinds x contents', sample={'function': fname, 'target': kind, 'content': tag})
                 plain = os.path.join(w.sub, 'out.csv')
                 gz = os.path.join(w.sub, 'out.csv.gz')
-                for p in (plain, gz):
-                    if os.path.exists(p):
-                        os.remove(p)
+                # the target exists already and holds LONGER content (a previous, bigger table): writing must replace it
+                with open(plain, 'wb') as fh:
+                    fh.write(b'#stale\n' + b'HP:9999999,HP:9999998,9.5\n' * 400)
+                with gzip.open(gz, 'wb') as fh:
+                    fh.write(b'#stale\n' + b'HP:9999999,HP:9999998,9.5\n' * 400)
                 try:
                     c = mk(tag, n)
                     if kind == 'path':
